@@ -71,6 +71,24 @@ func (sc *sliceCtx) visit(v ssa.Value, stack []*ssa.Call) {
 			}
 		}
 		return
+	case *ssa.Extract:
+		// one result of a multi-result module function: only that result of its return statements (the other
+		// results - an error list built next to the value - do not flow into this one)
+		if call, ok := x.Tuple.(*ssa.Call); ok {
+			if cal := call.Common().StaticCallee(); cal != nil && inModule(cal) && len(stack) < 4 && cal.Blocks != nil {
+				sc.seen[call] = true // the call itself belongs to the slice (its results are entered per index)
+				// arguments are reached through the parameters the entered result depends on
+				for _, b := range cal.Blocks {
+					for _, ins := range b.Instrs {
+						if r, ok := ins.(*ssa.Return); ok && x.Index < len(r.Results) {
+							sub := &sliceCtx{seen: sc.seen}
+							sub.visitCallee(r.Results[x.Index], append(append([]*ssa.Call{}, stack...), call))
+						}
+					}
+				}
+				return
+			}
+		}
 	case *ssa.Call:
 		for _, a := range x.Common().Args {
 			sc.visit(a, stack)
